@@ -37,7 +37,8 @@ Proof.
   destruct ((lookback (bnum b) <? first) && _); [exact H|].
   destruct (negb _); [exact H|].
   destruct ((bhv b =? 1) || (bhv b =? 2)); [exact H|].
-  destruct (negb ((bbv b =? 0) || (bbv b =? 5))); [exact H|].
+  destruct ((bbv b =? 1) || (bbv b =? 5)); [exact H|].
+  destruct (negb (bbv b =? 0)); [exact H|].
   apply IH. destruct (has_block (disk_of s) (bid b)); auto. apply fr_write_block; auto.
 Qed.
 
